@@ -74,19 +74,19 @@ fn main() {
         (
             Spec { cap: 2, keyseed: 7, warm: 1, wprog: vec![WOp::Add { dir: 1, par: 0 }, WOp::Add { dir: 2, par: 1 }],
                    rprogs: vec![vec![ROp::Setup { seal: true, x: 0 }, seal(0, 0), ROp::Ex(1)]] },
-            9, 11,
+            9, 13,
         ),
         // remove racing a cached seal
         (
             Spec { cap: 2, keyseed: 8, warm: 2, wprog: vec![WOp::Add { dir: 1, par: 0 }, WOp::Add { dir: 1, par: 1 }, WOp::Rm(0)],
                    rprogs: vec![vec![ROp::Setup { seal: true, x: 1 }, seal(0, 0), seal(0, 0), ROp::Ex(0)]] },
-            8, 10,
+            8, 12,
         ),
         // remove_if / remove_all with two readers
         (
             Spec { cap: 3, keyseed: 9, warm: 1, wprog: vec![WOp::Add { dir: 2, par: 0 }, WOp::RmIf(Pred::Par(0)), WOp::Add { dir: 1, par: 2 }, WOp::RmAll],
                    rprogs: vec![vec![ROp::Setup { seal: false, x: 0 }, ROp::Open { kth: 0, fail: false }], vec![ROp::Ex(0), ROp::Ex(1)]] },
-            6, 7,
+            6, 8,
         ),
     ];
     for (spec, dq, dt) in &fixed {
@@ -114,7 +114,7 @@ fn main() {
 
     // ---- random schedules of random programs
     let mut rng = Rng::new(args.seed);
-    let cases = args.budget(250, 2500);
+    let cases = args.budget(250, 8000);
     for c in 0..cases {
         let cfg = GenCfg { readers: rng.range(1, 3) as usize, wops: rng.range(2, 7) as usize, rops: rng.range(2, 7) as usize, focus: 0 };
         let spec = sw::gen_spec(&mut rng, &cfg);
